@@ -162,11 +162,15 @@ pub trait ReadXml: Sized {
             r is Err ==> is_prefix(old(reader).log@, final(reader).log@);
 }
 
+// (defined at the crate root and re-exported: deriving Structural inside a module trips a Verus internal error)
+#[derive(PartialEq, Eq, Structural)]
+//@item file=netconf/src/message/rpc/error.rs kind=enum name=Severity
+
 pub mod rpc {
 use super::*;
 broadcast use reply_lemmas;
 
-//@item file=netconf/src/message/rpc/error.rs kind=enum name=Severity
+pub use super::Severity;
 // rpc::Error: all fields other than the severity are abstracted into `ident`
 pub struct Error { pub severity: Severity, pub ident: u64 }
 impl Error {
@@ -202,9 +206,19 @@ impl Errors {
 //@contract
         ensures final(self)@ == old(self)@.push(err),
 //@end
-    // Errors::has_severity_error (iterator `any` with a closure: outside Verus' reach) — ASSUMED to be what its body says
-    #[verifier::external_body]
-    pub fn has_severity_error(&self) -> (res: bool) ensures res == has_severity_error(self@) { unimplemented!() }
+//@extract id=errors_has_severity_error file=netconf/src/message/rpc/error.rs impl=/^impl Errors/ fn=has_severity_error rules=R1,R7,R19,R17 r7map=option vis=pub
+//@contract
+        ensures res == has_severity_error(self@),                                             // OBL:C08.errors.has_severity_error_means_any
+//@loop 1 optional
+            invariant_except_break
+                !r__0,
+            invariant
+                s__0@ == self@, 0 <= i__0 <= s__0@.len(),
+                forall|j: int| 0 <= j < i__0 ==> (#[trigger] self@[j]).severity != Severity::Error,
+            ensures
+                r__0 <==> has_severity_error(self@),
+            decreases s__0@.len() - i__0,
+//@end
 }
 
 //@item file=netconf/src/message/rpc/mod.rs kind=enum name=EmptyReply
@@ -217,7 +231,7 @@ pub open spec fn empty_reply_read_post(seg: Seq<Item>, res: Result<EmptyReply, R
     }
 }
 impl EmptyReply {
-//@extract id=empty_reply_read_xml file=netconf/src/message/rpc/mod.rs impl=/impl ReadXml for EmptyReply/ fn=read_xml rules=R1,R2,R7,R11,R15 r7map=option vis=pub
+//@extract id=empty_reply_read_xml file=netconf/src/message/rpc/mod.rs impl=/impl ReadXml for EmptyReply/ fn=read_xml rules=R1,R2,R7,R11,R15,R17 r7map=option vis=pub
 //@contract
         ensures
             // (stated for Ok results only: nothing is claimed about the reader after a parse error)
@@ -258,7 +272,7 @@ pub open spec fn data_reply_read_post<D>(seg: Seq<Item>, res: Result<DataReply<D
     }
 }
 impl<D: ReadXml> DataReply<D> {
-//@extract id=data_reply_read_xml file=netconf/src/message/rpc/mod.rs impl=/impl<D: ReadXml> ReadXml for DataReply<D>/ fn=read_xml rules=R1,R2,R7,R11,R15 r7map=option vis=pub
+//@extract id=data_reply_read_xml file=netconf/src/message/rpc/mod.rs impl=/impl<D: ReadXml> ReadXml for DataReply<D>/ fn=read_xml rules=R1,R2,R7,R11,R15,R17 r7map=option vis=pub
 //@contract
         ensures
             res is Ok ==> final(reader).remaining@.len() <= old(reader).remaining@.len(),
@@ -305,7 +319,7 @@ pub open spec fn bare_reply_read_post(seg: Seq<Item>, res: Result<BareReply, Rea
     }
 }
 impl BareReply {
-//@extract id=bare_reply_read_xml file=netconf/src/message/rpc/operation/junos/mod.rs impl=/impl ReadXml for BareReply/ fn=read_xml rules=R1,R2,R7,R11,R15 vis=pub
+//@extract id=bare_reply_read_xml file=netconf/src/message/rpc/operation/junos/mod.rs impl=/impl ReadXml for BareReply/ fn=read_xml rules=R1,R2,R7,R11,R15,R17 vis=pub
 //@contract
         ensures
             res is Ok ==> final(reader).remaining@.len() <= old(reader).remaining@.len(),
@@ -357,7 +371,7 @@ pub open spec fn load_reply_read_post(seg: Seq<Item>, res: Result<Reply, ReadErr
     }
 }
 impl Reply {
-//@extract id=load_reply_read_xml file=netconf/src/message/rpc/operation/junos/load_configuration.rs impl=/impl ReadXml for Reply/ fn=read_xml rules=R1,R2,R7,R8,R11,R15 r7map=result constpats=xmlns::BASE vis=pub
+//@extract id=load_reply_read_xml file=netconf/src/message/rpc/operation/junos/load_configuration.rs impl=/impl ReadXml for Reply/ fn=read_xml rules=R1,R2,R7,R8,R11,R15,R17 r7map=result constpats=xmlns::BASE vis=pub
 //@contract
         ensures
             res is Ok ==> final(reader).remaining@.len() <= old(reader).remaining@.len(),
